@@ -1,9 +1,9 @@
 #!/bin/sh
-# usage: tools_sweep.sh <tier> <seed>...   : run every check with each seed (false-alarm hunt on the unchanged tree)
+# usage: [PROPS="C01 C02"] tools_sweep.sh <tier> <seed>...   : run every check with each seed (false-alarm hunt on the unchanged tree)
 tier="$1"; shift
 (cd lean && lake build Treepath tpdriver >/dev/null 2>&1)
 for s in "$@"; do
-  for p in C01 C02 C03 C04 C05 C06 C07 C08 C09 C10 C11 C12 C13 C14 C15 C16 C17 C18 C19 C20; do
+  for p in ${PROPS:-C01 C02 C03 C04 C05 C06 C07 C08 C09 C10 C11 C12 C13 C14 C15 C16 C17 C18 C19 C20}; do
     VERIF_SEED=$s ./check $p --tier $tier 2>&1 | grep -E "^(VIOLATION|INFRA|C[0-9]+ tier)" | tr '\n' ' '; echo
   done
 done
